@@ -246,9 +246,6 @@ func c01Scn(p c01Params, bound int) *Scn {
 func c01Scenarios(th bool) []*Scn {
 	var out []*Scn
 	bound := 1
-	if th {
-		bound = 2
-	}
 	var combos []c01Params
 	for _, passive := range []bool{false, true} {
 		for in := -1; in < len(connScripts); in++ {
@@ -263,19 +260,28 @@ func c01Scenarios(th bool) []*Scn {
 			for _, o := range outs {
 				for di, domL := range []bool{false, true} {
 					for tail := 0; tail < 3; tail++ {
-						if !th {
-							// quick: full (in,out) matrix for one (dominance, tail) each, rotating
-							if (in+o+2)%2 != di || (in+2*o+6)%3 != tail {
-								continue
-							}
+						// the diagonal: the full (in,out) matrix with one (dominance, tail) each, rotating
+						diag := (in+o+2)%2 == di && (in+2*o+6)%3 == tail
+						if !th && !diag {
+							continue
 						}
-						combos = append(combos, c01Params{passive: passive, in: in, out: o, domL: domL, tail: tail})
+						cb := c01Params{passive: passive, in: in, out: o, domL: domL, tail: tail}
+						if th && diag {
+							cb.api2J = -2 // marker: explore this one a bound deeper
+						}
+						combos = append(combos, cb)
 					}
 				}
 			}
 		}
 	}
 	for _, cb := range combos {
+		bound := bound
+		if cb.api2J == -2 {
+			// thorough: the full product at bound 1, its diagonal at bound 2
+			cb.api2J = 0
+			bound = 2
+		}
 		_, e, n := c01Run(cb, nil, false, true)
 		e.Finish()
 		times := []int{0, 6000, 13000}
@@ -285,8 +291,8 @@ func c01Scenarios(th bool) []*Scn {
 			out = append(out, c01Scn(q, bound))
 		}
 		stride := n/12 + 1
-		if th {
-			stride = n/40 + 1
+		if th && bound == 1 {
+			stride = n/24 + 1
 		}
 		for j := stride / 2; j <= n; j += stride {
 			q := cb
@@ -307,6 +313,9 @@ func c01Scenarios(th bool) []*Scn {
 				stride := 4
 				if th {
 					stride = 1
+				}
+				if th {
+					bound = 1 // +1 below: the dense sweep at bound 2
 				}
 				for j := 0; j <= 44; j += stride {
 					out = append(out, c01Scn(c01Params{passive: cb.passive, in: cb.in, out: cb.out, tail: tail, trigK: "time", trigN: t, api2J: j}, bound+1))
